@@ -190,7 +190,7 @@ theorem inArray_str_equiv (ctx : Ctx) (m ma mc : Meta) (l : Node) (xs : List Nod
   rw [eval_in, eval_in, eval_notin, eval_notin]
   exact ⟨inArray_str_core ctx false l ma mc xs ss hd hx, inArray_str_core ctx true l ma mc xs ss hd hx⟩
 
-/-- `x in a..b` ⇝ `x >= a and x <= b` for a left operand that is integer-kinded (`int` or an unsigned kind)
+/-- `x in a..b` ⇝ `x >= a and x <= b` for a left operand that is integer-kinded (`int`, `int64` or an unsigned kind)
     and can be evaluated twice (`RangeLeftOK`: no calls, no allocation; the code asks for neither: #9) -/
 theorem inRange_equiv (fl : Flags) (m mr mf mt : Meta) (op : String) (l : Node) (a b : Int) (st : St)
     (_hop : op = "in" ∨ op = "not in") (ha : IntLitOK mf a) (hb : IntLitOK mt b) (hl : RangeLeftOK c l)
@@ -198,6 +198,10 @@ theorem inRange_equiv (fl : Flags) (m mr mf mt : Meta) (op : String) (l : Node) 
     RelM (eval c ctx (inRangeRule fl (.binary m op l (.binary mr ".." (.int mf a) (.int mt b))) st).1)
          (eval c ctx (.binary m op l (.binary mr ".." (.int mf a) (.int mt b)))) :=
   (inRange_sound fl _ (by simp only [InRangeOK]; exact fun _ _ => ⟨ha, hb, hl, hs⟩) st).ev ctx
+
+/-- the kinds the repaired in_range guard admits (`Opt.rangeKd`) are exactly the kinds of `inRange_equiv` -/
+theorem rangeKd_iff (k : Kind) : rangeKd (.num k) = true ↔ RangeK k := by
+  cases k <;> simp [rangeKd, RangeK, Kind.rank]
 
 /-- a literal range becomes the constant with the same elements; only the allocation differs -/
 theorem constRange_equiv (m ma mb : Meta) (lo hi : Int) (st : St) (ha : IntLitOK ma lo) (hb : IntLitOK mb hi)
